@@ -1,0 +1,33 @@
+//go:build verif && linux
+
+// Verification hook (package conn) for property C17: reads back the buffer sizes the kernel holds
+// for a connection opened by New. Additive only; compiled only with -tags verif.
+
+package conn
+
+import (
+	"errors"
+	"net"
+	"syscall"
+
+	"github.com/scionproto/scion/private/underlay/sockctrl"
+)
+
+// VerifCfgSockBufs returns getsockopt(SO_RCVBUF) and getsockopt(SO_SNDBUF) of c (the kernel
+// reports twice the value that was set).
+func VerifCfgSockBufs(c Conn) (rcv, snd int, err error) {
+	var uc *net.UDPConn
+	switch v := c.(type) {
+	case *connUDPIPv4:
+		uc = v.conn
+	case *connUDPIPv6:
+		uc = v.conn
+	default:
+		return 0, 0, errors.New("unknown conn implementation")
+	}
+	if rcv, err = sockctrl.GetsockoptInt(uc, syscall.SOL_SOCKET, syscall.SO_RCVBUF); err != nil {
+		return 0, 0, err
+	}
+	snd, err = sockctrl.GetsockoptInt(uc, syscall.SOL_SOCKET, syscall.SO_SNDBUF)
+	return rcv, snd, err
+}
